@@ -31,4 +31,14 @@ for p in props:
                 break
         else:
             print('no entry matched', p, sig)
-open(kf, 'w').write('\n'.join(lines))
+# merge into the file as it is NOW (another process may have appended lines meanwhile): only the exemplar fields change
+upd = {(d['property'], d['signature']): d for _, d in ents if 'exemplar' in d}
+cur = open(kf).read().split('\n')
+for i, l in enumerate(cur):
+    if l.startswith('{'):
+        d = json.loads(l)
+        u = upd.get((d['property'], d['signature']))
+        if u and d['status'] == 'known':
+            d['exemplar'], d['exemplar_signature'] = u['exemplar'], u['exemplar_signature']
+            cur[i] = json.dumps(d)
+open(kf, 'w').write('\n'.join(cur))
